@@ -127,14 +127,18 @@ func (s *Sim) oracleC03(op Op) {
 			s.violate("C03", "negative", "queue", "queue %s has a negative total: alloc %s pending %s preempting %s", path, q.Alloc, q.Pending, q.Preempting)
 		}
 		// preempting = marked victims
-		if q.Leaf {
+		if q.Leaf || len(q.Children) > 0 {
+			// (a queue whose type a reload flipped under load reports as a leaf and still has children: the marked
+			// victims of everything at or below the queue count, as the core books them on the whole path)
 			sumPre := Res{}
-			for _, id := range q.Apps {
-				if a := p.Apps[id]; a != nil {
-					for _, k := range sortedKeys(a.Allocs) {
-						if al := a.Allocs[k]; al.Preempted {
-							sumPre.AddTo(al.Res)
-						}
+			for _, id := range sortedKeys(p.Apps) {
+				a := p.Apps[id]
+				if a.Queue != path && !strings.HasPrefix(a.Queue, path+".") {
+					continue
+				}
+				for _, k := range sortedKeys(a.Allocs) {
+					if al := a.Allocs[k]; al.Preempted {
+						sumPre.AddTo(al.Res)
 					}
 				}
 			}
